@@ -179,3 +179,18 @@ def S(p):
     return lambda e: p(strip(e))
 
 
+
+
+def find_rel_edges(g, op, lhs, rhs):
+    """edges whose condition is `lhs <op> rhs`, modulo operand order (a < b  ==  b > a)"""
+    from guards import SWAP
+    out = []
+    for e in g.edges:
+        c = e.cond
+        if c[0] != "rel":
+            continue
+        if c[1] == op and lhs(c[2]) and rhs(c[3]):
+            out.append(e)
+        elif SWAP[c[1]] == op and lhs(c[3]) and rhs(c[2]):
+            out.append(e)
+    return out
